@@ -151,6 +151,12 @@ Lemma pinned_body_findLocalMacro : gen_body_findLocalMacro =
    "return nil"].
 Proof. reflexivity. Qed.
 
+(* ... "a variable of the group function": a *types.Var that is not a field and whose scope is not the package's *)
+Lemma pinned_body_isLocalVar : gen_body_isLocalVar =
+  ["v, ok := obj.(*types.Var)";
+   "return ok && !v.IsField() && v.Pkg() != nil && v.Parent() != v.Pkg().Scope()"].
+Proof. reflexivity. Qed.
+
 (* toStringValue: a string literal is unquoted; any other expression needs the string constant go/types recorded *)
 Lemma pinned_body_toStringValue : gen_body_toStringValue =
   ["switch x := x.(type) { case *ast.BasicLit: if x.Kind != token.STRING { return """", false } s, err := strconv.Unquote(x.Value) if err != nil { return """", false } return s, true case ast.Expr: typ, ok := conv.types.Types[x] if !ok || typ.Value == nil || typ.Type.String() != ""string"" { return """", false } str := constant.StringVal(typ.Value) return str, true }";
